@@ -33,6 +33,22 @@ def main():
         traceback.print_exc()
         print("CHECK-ERROR property=%s the harness itself failed" % a.pid)
         sys.exit(2)
+    if a.tier == "thorough" and not a.replay:
+        # the independent checker re-checks the property file and all it depends on; its context summary goes into the evidence
+        ck = common.coqchk(a.pid)
+        evp = os.path.join(common.VERIF, "evidence", a.pid + ".json")
+        try:
+            with open(evp) as f:
+                ev = json.load(f)
+            ev["coverage"]["coqchk"] = ck
+            with open(evp, "w") as f:
+                json.dump(ev, f, indent=1, default=str)
+        except (OSError, ValueError, KeyError):
+            pass
+        print("coqchk: " + ck["summary"][:300])
+        if not ck["ok"] and rc == 0:
+            run.violation("broken-obligation-coqchk", ck, no_input=True)
+            rc = 1
     sys.exit(rc)
 
 
